@@ -687,7 +687,7 @@ BRACE_ALPHABET = list("a{},12?()|")
 
 FRAG_NUMS = ["0", "1", "2", "3", "9", "10", "00", "007", "15", "2147483646", "2147483647", "2147483648", "4294967295",
              "4294967296", "9223372036854775806", "9223372036854775807"]
-FRAG_ATOMS = ["a", "b", ".", "\\d", "\\D", "\\w", "\\s", "\\n", "\\t", "\\.", "\\$", "\\/", "\\a", "\\-", "\\{", "\\}", "\\]",
+FRAG_ATOMS = ["a", "b", ".", "\\1", "\\2", "\\12", "\\07", "\\8", "(c)", "\\d", "\\D", "\\w", "\\s", "\\n", "\\t", "\\.", "\\$", "\\/", "\\a", "\\-", "\\{", "\\}", "\\]",
               "-", ",", "1", "/", ":", "=", "!", "<", "]", "}", "{", "^", "$", "\\b", "\\B",
               "\\0", "\\00", "\\08", "\\cA", "\\cz", "\\c", "\\c1", "\\c_", "\\x41", "\\xfF", "\\x4", "\\xg", "\\x", "\\u0041", "\\u004",
               "\\u", "\\uD83D\\uDE00", "\\ud83d\\ude00", "\\uD83D", "\\uDE00", "\\uDBFF\\uDC00", "\\uDC00\\uD800", "\\uD800\\u0041",
@@ -764,6 +764,17 @@ ESCAPE_ALPHABET = list("a\\cxu0{}41Dd?(|)")
 SURROGATE_ALPHABET = list("\\uD83dDEcC0A")
 
 
+# decimal escapes next to capturing and non-capturing groups
+BACKREF_ALPHABET = list("a\\(?:)108937|*")
+BACKREF_PIECES = ["(a)", "(?:b)", "(?=c)", "(", "\\1", "\\2", "\\3", "\\10", "\\11", "\\0", "\\00", "\\01", "\\07", "\\08", "\\8", "\\9",
+                  "\\18", "\\377", "\\400", "\\12", "\\77", "\\78", "a", "*", "{2}", "|", ")", "\\(", "1", "8", "\\1a", "((a))", "(?<=(x))",
+                  "\\u0031", "\\c1", "\\9223372036854775807", "\\4294967296", "(?!(y)\\2)"]
+
+
+def gen_backref_structured(rng, n):
+    return ["".join(rng.choice(BACKREF_PIECES) for _ in range(rng.randint(1, 7))) for _ in range(n)]
+
+
 def grammar_strings(tier, rng):
     thorough = tier == "thorough"
     strs = list(gen_exhaustive(4, FRAGMENT_ALPHABET))
@@ -775,6 +786,9 @@ def grammar_strings(tier, rng):
     strs += gen_sampled(rng, 300000 if thorough else 30000, 12, SURROGATE_ALPHABET)
     strs += gen_sampled(rng, 100000 if thorough else 10000, 6, SURROGATE_ALPHABET)
     strs += gen_fragment_structured(rng, 400000 if thorough else 60000)
+    strs += list(gen_exhaustive(5 if thorough else 4, BACKREF_ALPHABET))
+    strs += gen_sampled(rng, 300000 if thorough else 40000, 9, BACKREF_ALPHABET)
+    strs += gen_backref_structured(rng, 300000 if thorough else 50000)
     if thorough:
         strs += list(gen_exhaustive(5, list("a.|()?*+:^$=!<\\dbw/]")))
     return strs
